@@ -212,6 +212,9 @@ func (x *FnExec) havocAll(st *State) {
 	for _, l := range x.locals {
 		x.restoreCells(st, old, l)
 	}
+	// immutable package variables (and the big integers they refer to) are not written by anybody:
+	// proved for every function under contract by its frame obligation, assumed for the rest
+	x.restoreImmutableGlobals(st, old)
 	// ... nor objects that were allocated for this function and whose address it never handed out
 	for _, o := range x.freshObjs {
 		if os.Getenv("GOVC_DEBUG") != "" {
@@ -419,8 +422,17 @@ func (x *FnExec) callerEnvAt(st *State) *Env {
 	}
 	env := x.envFor(x.con, x.fn, args, nil, st.heaps, x.entry.heaps, x.entry.alloc)
 	x.addFreeVarNames(env)
+	x.unshadowSpilledParams(env)
 	prev := env.resolver
 	env.resolver = func(name string) (TVal, bool) {
+		if strings.HasSuffix(name, "0") {
+			base := strings.TrimSuffix(name, "0")
+			for i, p := range x.fn.Params {
+				if p.Name() == base {
+					return TVal{args[i], p.Type()}, true
+				}
+			}
+		}
 		if v, ok := x.resolveLocalAny(name, st); ok {
 			return v, true
 		}
@@ -672,3 +684,36 @@ func sigParamTypes(sig *types.Signature, recv types.Type) []types.Type {
 }
 
 func init() { _ = os.Getenv }
+
+func (x *FnExec) restoreImmutableGlobals(st *State, old map[string]Term) {
+	used := x.usedGlobals()
+	for _, pkgPath := range sortedKeys(x.eng.cs.Globals) {
+		sp := x.eng.ssaPkg(pkgPath)
+		if sp == nil {
+			continue
+		}
+		for _, g := range x.eng.cs.Globals[pkgPath] {
+			if !g.Immutable || !used[pkgPath+"."+g.Name] {
+				continue
+			}
+			m, ok := sp.Members[g.Name].(*ssa.Global)
+			if !ok {
+				continue
+			}
+			el := m.Type().(*types.Pointer).Elem()
+			addr := x.globalAddr(m)
+			x.restoreCells(st, old, localAlloc{addr: addr, t: el})
+			// the big integer behind it
+			env := &Env{x: x, vars: map[string]TVal{}, heaps: old, old: old, alloc0: x.entry.alloc, errs: &x.errs, pkg: sp}
+			if tv, ok := env.lookup(g.Name); ok {
+				if r, ok := bigRef(tv); ok {
+					if ob, have := old["Big"]; have {
+						if cur, have2 := st.heaps["Big"]; have2 && cur != ob {
+							st.heaps["Big"] = x.ctx.Define("H_Big", SArrI, Sto(cur, r, Sel(ob, r)))
+						}
+					}
+				}
+			}
+		}
+	}
+}
